@@ -27,7 +27,10 @@
 //   (*storageManager).setRaw/post:stored, createOrExtendTokenInStorage/post:live-afterwards (session back end)
 //                               a failed write is ignored: the client is handed a token that is not in the store
 //   New/safety:bounds:strslice#3   a wildcard entry with leading spaces is split at the index taken in the
-//                               untrimmed string (start-up panic, or a wrong prefix/suffix pair)
+//                               untrimmed string (start-up panic, or a wrong prefix/suffix pair); with the set-up contracts
+//                               also New/inv:loop1.preserve:wildcard-entries-traced#2 and ...:every-entry-listed#2
+//   normalizeOrigin/post:valid-has-no-userinfo   a trusted origin with userinfo is accepted and the userinfo dropped:
+//                               "https://*.cdn@example.com" is stored with suffix "example.com", https://evilexample.com is trusted
 // Callers are verified against the callee CONTRACTS, so these failures stay where the defect is.
 
 package csrf
@@ -257,8 +260,12 @@ package csrf
 //@   requires fresh-activation: nextCalls == 0 && ehCalls == 0
 //@   requires sentinel-errors: sentinelErrors() && ErrRefererNotFound != nil && ErrRefererInvalid != nil && ErrRefererNoMatch != nil
 //@   requires trusted-are-origins: trustedWf(trustedOrigins)
+// New's postcondition trusted-wildcards-shaped (same macro): every wildcard entry is "scheme://" + ".domain"
+//@   requires trusted-wildcards-shaped: wildShaped()
 // -- unsafe methods: what must hold whenever the protected handler is reached
 //@   atcall @fiber.Ctx.Next: unsafe-origin-same-or-trusted: !bypassed() && unsafeMethod(c) ==> originAllowed(c) || (originAbsent(c) && (reqScheme(c, epoch) != "https" || refererAllowed(c)))
+//@   atcall @fiber.Ctx.Next: unsafe-wildcard-origin-is-scheme-and-dot-suffix: !bypassed() && unsafeMethod(c) && !originAbsent(c) && !sameOrigin(c, originLc(c)) && !trustedExact(trustedOrigins, originLc(c)) ==>
+//@ ..   exists(i, 0, len(trustedSubOrigins), sdShape(trustedSubOrigins[i].prefix, trustedSubOrigins[i].suffix) && sdMatch(trustedSubOrigins[i].prefix, trustedSubOrigins[i].suffix, originLc(c)) && originLc(c)[len(originLc(c))-len(trustedSubOrigins[i].suffix)] == '.')
 //@   atcall @fiber.Ctx.Next: unsafe-token-extracted: !bypassed() && unsafeMethod(c) ==> called(Config.Extractor) && exOK && exTok != ""
 //@   atcall @fiber.Ctx.Next: unsafe-token-matches-cookie: !bypassed() && unsafeMethod(c) ==> (called(isFromCookie) && last(isFromCookie)) || exTok == cookieTok(c)
 //@   atcall @fiber.Ctx.Next: unsafe-token-was-live: !bypassed() && unsafeMethod(c) ==> called(getRawFromStorage) && last(getRawFromStorage) != nil && tokLiveAtEntry(c, exTok)
@@ -314,11 +321,24 @@ package csrf
 // Configuration
 // ---------------------------------------------------------------------------------------------
 // normalizeOrigin accepts only http(s) URLs with a host and nothing else, and returns scheme://host.
+// (macros validEntry/layout and the positional clauses: zz_contracts_setup_verif.go)
 //@ func normalizeOrigin
 //@   pure
 //@   ensures valid-only-plain-http-origin: result0 ==> urlOK(origin) && (urlScheme(origin) == "http" || urlScheme(origin) == "https") && urlHost(origin) != "" && !strContains(urlHost(origin), "*")
+//@   ensures valid-only-host-only-url: result0 ==> validEntry(origin)
+// FAILS (genuine): a URL with userinfo is accepted and the userinfo silently dropped: for the wildcard entry
+// "https://*.cdn@example.com" New then stores the suffix "example.com" (no leading dot), see the head of zz_contracts_setup_verif.go.
+//@   ensures valid-has-no-userinfo: result0 ==> !urlHasUser(origin)
+//@   ensures plain-http-origin-without-userinfo-is-valid: validEntry(origin) && !urlHasUser(origin) ==> result0
 //@   ensures normalised-is-scheme-host: result0 ==> result1 == lower(urlScheme(origin)) + "://" + lower(urlHost(origin)) && originForm(result1)
 //@   ensures invalid-is-empty: !result0 ==> result1 == ""
+//@   ensures valid-entry-layout: result0 ==> layout(origin)
+//@   ensures normalised-parts: result0 ==> len(result1) == len(urlScheme(origin)) + 3 + len(urlHost(origin)) && result1[:len(urlScheme(origin))] == lower(urlScheme(origin)) && result1[len(urlScheme(origin)):len(urlScheme(origin))+3] == "://" && result1[len(urlScheme(origin))+3:] == lower(urlHost(origin))
+//@   ensures normalised-prefix: result0 ==> result1[:len(urlScheme(origin))+3] == lower(urlScheme(origin)) + "://"
+//@   ensures normalised-scheme-has-no-separator: result0 ==> forall(k, 0, len(urlScheme(origin)), result1[k] != ':' && result1[k] != '/')
+//@   ensures normalised-is-lower: result0 ==> result1 == lower(result1)
+//@   ensures single-separator-behind-scheme: result0 ==> forall(m, 0, len(origin) - 2, origin[m] == ':' && origin[m+1] == '/' && origin[m+2] == '/' ==> m == len(urlScheme(origin)))
+//@   ensures host-byte-behind-separator: result0 && !urlHasUser(origin) && origin[len(urlScheme(origin))+3] != '%' ==> result1[len(urlScheme(origin))+3] == lower(origin)[len(urlScheme(origin))+3]
 
 //@ func configDefault panics
 //@   requires package-default-intact: allocated(ConfigDefault) && ConfigDefault.IdleTimeout > 0 && ConfigDefault.CookieName != "" && ConfigDefault.KeyGenerator != nil && ConfigDefault.ErrorHandler != nil && ConfigDefault.Extractor != nil && ConfigDefault.KeyLookup != ""
@@ -326,6 +346,10 @@ package csrf
 //@   ensures callbacks-set: result.KeyGenerator != nil && result.ErrorHandler != nil && result.Extractor != nil
 //@   ensures user-choices-kept: len(config) > 0 ==> result.Storage == config[0].Storage && result.Session == config[0].Session && result.SingleUseToken == config[0].SingleUseToken && result.TrustedOrigins == config[0].TrustedOrigins &&
 //@ ..   (config[0].IdleTimeout > 0 ==> result.IdleTimeout == config[0].IdleTimeout) && (config[0].Extractor != nil ==> result.Extractor == config[0].Extractor && (config[0].CookieName != "" ==> result.CookieName == config[0].CookieName))
+
+// (set-up) the trusted-origin list is the caller's, or the package default's: stated over the entry state, because
+// callers see the heap havocked by this call (no frame clause)
+//@   ensures trusted-list-kept: result.TrustedOrigins == old(ite(len(config) > 0, config[0].TrustedOrigins, ConfigDefault.TrustedOrigins))
 
 // The extractor constructors only allocate the closure.
 //@ func FromHeader pure
@@ -342,12 +366,45 @@ package csrf
 //@ func newStorageManager
 //@   ensures configured-store-or-memory: result != nil && result.storage == storage && (storage == nil ==> result.memory != nil)
 
-// New: the lists captured by the handler. Exact entries are normalised origins (this is what the handler's
-// `requires trusted-are-origins` stands for; the link between the two is by name, the engine does not check
-// a closure's precondition where the closure is made).
-// safety:bounds:strslice#3 (normalizedOrigin[:i+3]) FAILS (genuine): i is the index of "://*." in the untrimmed entry.
+// New: the lists captured by the handler (macros: zz_contracts_setup_verif.go). Exact entries are normalised origins
+// of configured entries, wildcard entries "scheme://*.domain" are stored as prefix "scheme://" and suffix ".domain".
+// The handler's `requires trusted-are-origins` / `trusted-wildcards-shaped` are these postconditions (the link between
+// the two is by name - the shared macros -, the engine does not check a closure's precondition where the closure is made).
+// safety:bounds:strslice#3 (normalizedOrigin[:i+3]) FAILS (genuine): i is the index of "://*." in the untrimmed entry;
+// for the same reason inv:loop1.preserve:wildcard-entries-traced#2 and inv:loop1.preserve:every-entry-listed#2 FAIL.
 //@ func New panics
 //@   requires package-default-intact: allocated(ConfigDefault) && ConfigDefault.IdleTimeout > 0 && ConfigDefault.CookieName != "" && ConfigDefault.KeyGenerator != nil && ConfigDefault.ErrorHandler != nil && ConfigDefault.Extractor != nil && ConfigDefault.KeyLookup != ""
+// heap well-formedness (the engine assumes it for slices it loads, but the list reaches New inside configDefault's
+// struct result): the configured list, if any, is an array that exists at entry - so the lists New allocates are others
+//@   requires configured-list-allocated: (len(config) > 0 ==> arr(config[0].TrustedOrigins) == nil || allocated(arr(config[0].TrustedOrigins))) && (arr(ConfigDefault.TrustedOrigins) == nil || allocated(arr(ConfigDefault.TrustedOrigins)))
+// lemmas for a wildcard entry (i != -1): the marker's "://" and the '.' behind the '*' survive the removal of the '*'
+// (at the Trim call: s is the entry without the '*') and the trimming, lead(...) bytes further left (at the
+// normalizeOrigin call: there `origin` is the callee's formal, i.e. the trimmed text; the entry is cur()).
+//@   atcall @utils.Trim: marker-bytes: i != -1 ==> origin[i] == ':' && origin[i+1] == '/' && origin[i+2] == '/' && origin[i+4] == '.'
+//@   atcall @utils.Trim: marker-bytes-without-star: i != -1 ==> s == destar(origin, i) && s[i] == ':' && s[i+1] == '/' && s[i+2] == '/' && s[i+3] == '.'
+//@   atcall normalizeOrigin: marker-not-trimmed: i != -1 ==> lead(cur(), i) <= i && i + 4 <= lead(cur(), i) + len(origin)
+//@   atcall normalizeOrigin: marker-bytes-trimmed: i != -1 ==> origin[i-lead(cur(), i)] == ':' && origin[i-lead(cur(), i)+1] == '/' && origin[i-lead(cur(), i)+2] == '/' && origin[i-lead(cur(), i)+3] == '.'
 //@   loop 1
+//@     invariant index-in-range: rangeindex < len(cfg.TrustedOrigins)
+//@     invariant lists-are-own-storage: arr(trustedOrigins) != arr(cfg.TrustedOrigins)
+//@     invariant one-list-element-per-entry: len(trustedOrigins) + len(trustedSubOrigins) == rangeindex + 1
 //@     invariant trusted-are-origins: trustedWf(trustedOrigins)
+//@     invariant exact-entries-traced: exactTraced(rangeindex + 1)
+//@     invariant exact-entries-lower: exactLower()
+//@     invariant every-entry-listed: forall(j, 0, rangeindex + 1, entryListed(cfg.TrustedOrigins[j]))
+//@     invariant wildcard-entries-traced: wildTraced(rangeindex + 1)
+//@     invariant wildcard-prefix-ends-with-separator: forall(k, 0, len(trustedSubOrigins), len(trustedSubOrigins[k].prefix) > 3 && trustedSubOrigins[k].prefix[len(trustedSubOrigins[k].prefix)-3:] == "://")
+//@     invariant wildcard-prefix-is-one-scheme: forall(k, 0, len(trustedSubOrigins), forall(m, 0, len(trustedSubOrigins[k].prefix)-3, trustedSubOrigins[k].prefix[m] != ':' && trustedSubOrigins[k].prefix[m] != '/'))
+//@     invariant wildcard-suffix-starts-with-dot: forall(k, 0, len(trustedSubOrigins), len(trustedSubOrigins[k].suffix) > 0 && trustedSubOrigins[k].suffix[0] == '.')
+//@     invariant wildcard-prefix-lower: forall(k, 0, len(trustedSubOrigins), trustedSubOrigins[k].prefix == lower(trustedSubOrigins[k].prefix))
+//@     invariant wildcard-suffix-lower: forall(k, 0, len(trustedSubOrigins), trustedSubOrigins[k].suffix == lower(trustedSubOrigins[k].suffix))
+//@     invariant wildcard-entries-shaped: wildShaped()
 //@   ensures trusted-are-origins: trustedWf(trustedOrigins)
+//@   ensures one-list-element-per-entry: len(trustedOrigins) + len(trustedSubOrigins) == len(cfg.TrustedOrigins)
+//@   ensures every-entry-listed: forall(j, 0, len(cfg.TrustedOrigins), entryListed(cfg.TrustedOrigins[j]))
+//@   ensures exact-entries-traced: exactTraced(len(cfg.TrustedOrigins))
+//@   ensures exact-entries-lower: exactLower()
+//@   ensures wildcard-entries-traced: wildTraced(len(cfg.TrustedOrigins))
+//@   ensures trusted-wildcards-shaped: wildShaped()
+//@   ensures configured-list-kept: len(config) > 0 ==> cfg.TrustedOrigins == old(config[0].TrustedOrigins)
+//@   ensures handler-made: result != nil
